@@ -137,9 +137,13 @@ def string_enum(rng, nvariants=None, *, allow_default=True, allow_disabled=True,
         if allow_aci and rng.random() < 0.3:
             b = rng.random() < 0.6
             ms.append(aci(b, explicit=(not b) or rng.random() < 0.5))
-        if allow_disabled and rng.random() < 0.2:
+        # disabled / default / default_with are drawn INDEPENDENTLY: options meet on one variant (a disabled catch-all, a catch-all with a
+        # default_with function that must not be consulted, a disabled variant with default_with)
+        is_dis = allow_disabled and rng.random() < 0.2
+        is_def = allow_default and not have_default and rng.random() < (0.3 if is_dis else 0.15)
+        if is_dis:
             ms.append(DISABLED)
-        elif allow_default and not have_default and rng.random() < 0.15:
+        if is_def:
             have_default = True
             ms.append(DEFAULT)
             inner = rng.choice(["String", "String", "Box<str>", "Wrap"])
@@ -147,7 +151,7 @@ def string_enum(rng, nvariants=None, *, allow_default=True, allow_disabled=True,
                 v.kind, v.fields = "tuple", [Field(inner)]
             else:
                 v.kind, v.fields = "named", [Field(inner, "captured")]
-        elif allow_dw and v.fields and rng.random() < 0.35:
+        if allow_dw and v.fields and rng.random() < (0.35 if not (is_dis or is_def) else 0.5):
             if v.kind == "tuple" and len(v.fields) == 1:
                 f = {"u8": "dw_u8", "i32": "dw_i32", "bool": "dw_bool", "String": "dw_string", "usize": "dw_usize"}.get(v.fields[0].ty)
                 if f:
@@ -177,6 +181,70 @@ def string_enum(rng, nvariants=None, *, allow_default=True, allow_disabled=True,
     if rng.random() < 0.12:
         it.via_macro = True if rng.random() < 0.6 else "idents"     # "idents": the variant names are macro fragments too        # the enum comes out of a macro_rules! expansion, attribute values passed in as fragments
     return it
+
+
+DW_FN = {"u8": "dw_u8", "i32": "dw_i32", "bool": "dw_bool", "String": "dw_string", "usize": "dw_usize"}
+
+
+def foreign_option_items(rng, count, *, allow_default=True, allow_transparent=False, unit_only=False, tag="Q"):
+    """enums for the derives that read ONE option of a variant (`disabled`) — EnumIter, EnumCount, FromRepr, EnumTable, EnumIs,
+    VariantArray ... — whose variants carry every OTHER option, in every position relative to `disabled`, in one list or in
+    several: bare and valued `ascii_case_insensitive`, serialize / to_string, message / detailed_message, props, default_with
+    (variant and field level), default, doc comments.  Options of other derives mean nothing to these derives."""
+    shapes = [("unit", []), ("tuple", ["u8"]), ("tuple", ["String"]), ("named", [("flag", "bool")]), ("named", [("a", "usize"), ("b", "String")]),
+              ("tuple", ["String", "i32"]), ("tuple", ["i32"]), ("named", [("n", "u8")])]
+    out = []
+    for j in range(count):
+        n = rng.randint(3, 7)
+        vs = []
+        have_default = False
+        for i in range(n):
+            kind, fs = ("unit", []) if unit_only else rng.choice(shapes)
+            v = Variant("%s%d%s" % (tag, i, "xyzuvw"[i % 6]), kind)
+            v.fields = [Field(t) for t in fs] if kind == "tuple" else [Field(t, nm) for nm, t in fs]
+            ms = []
+            if rng.random() < 0.5:
+                ms.append(aci(rng.random() < 0.5, explicit=True) if rng.random() < 0.6 else aci(True, explicit=False))
+            if rng.random() < 0.4:
+                ms.append(ser("s%d-%d" % (j, i)))
+                if rng.random() < 0.4:
+                    ms.append(ser("S%d_%d_longer" % (j, i)))
+            if rng.random() < 0.25:
+                ms.append(tos("t%d.%d" % (j, i)))
+            if rng.random() < 0.25:
+                ms.append(msg("message %d" % i))
+            if rng.random() < 0.2:
+                ms.append(det("detail %d" % i))
+            if rng.random() < 0.3:
+                ms.append(props([("k%d" % i, ("s", "v")), ("n", ("i", i)), ("b", ("b", i % 2 == 0))][: rng.randint(1, 3)]))
+            if rng.random() < 0.2:
+                ms.append(doc(" doc line %d" % i))
+            if kind == "tuple" and len(v.fields) == 1 and v.fields[0].ty in DW_FN and rng.random() < 0.5:
+                ms.append(dw(DW_FN[v.fields[0].ty]))
+            elif kind == "named" and rng.random() < 0.5:
+                for f in v.fields:
+                    if f.ty in DW_FN and rng.random() < 0.7:
+                        f.dws = [DW_FN[f.ty]]
+            if allow_default and not have_default and kind == "tuple" and fs == ["String"] and rng.random() < 0.6:
+                have_default = True
+                ms.append(DEFAULT)
+            if allow_transparent and kind == "tuple" and len(fs) == 1 and DEFAULT not in ms and not any(m.kind in ("ser", "tos") for m in ms) and rng.random() < 0.2:
+                ms.append(TRANSPARENT)
+            rng.shuffle(ms)
+            if rng.random() < 0.45:
+                ms.insert(rng.randint(0, len(ms)), DISABLED)           # `disabled` first, in the middle, last
+            v.metas = ms
+            r = rng.random()
+            if len(ms) >= 2 and r < 0.3:
+                v.groups = [1] * (len(ms) - 1)                          # every option in a list of its own
+            elif len(ms) >= 2 and r < 0.5:
+                v.groups = [rng.randint(1, len(ms) - 1)]
+            vs.append(v)
+        it = Item("E", vs)
+        if rng.random() < 0.3:
+            it.metas = [EM("aci")] if rng.random() < 0.5 else [EM("sall", rng.choice(STYLES))]
+        out.append(it)
+    return out
 
 
 def fix_generics(it: Item) -> Item:
